@@ -158,6 +158,29 @@ func genScenario(ch chooser) Scenario {
 	for _, p := range sortedKeys(sc.Byz) {
 		sc.Byz[p] = genStrategy(ch, sc.N, sc.T, p, sc.L)
 	}
+	// Template "one honest keyper misses its accusation": a Byzantine dealer
+	// that otherwise stays qualified gives honest keyper A a bad eval and A
+	// sleeps through the accusing phase. A must then report failure while
+	// the other honest keypers succeed with a key that includes the
+	// Byzantine dealer - the situation in which "agreement among those that
+	// report success" is a real constraint.
+	if hs := sc.honest(); len(sc.Byz) > 0 && len(hs) >= 2 && ch.Pick("template", 5, 1) == 1 {
+		w := make([]int, len(hs))
+		for i := range w {
+			w[i] = 1
+		}
+		a := hs[ch.Pick("templateVictim", w...)]
+		b := sortedKeys(sc.Byz)[0]
+		st := sc.Byz[b]
+		st.Commit, st.LateDeal = cmCorrect, false
+		st.Eval[a] = []int{evWrong, evNone}[ch.Pick("templateEval", 1, 1)]
+		st.Apology, st.LateApo, st.EarlyApo = apCorrect, false, false
+		sc.Byz[b] = st
+		L := int(sc.L)
+		sc.Fair = false
+		sc.Stalls = []stall{{Pos: a, From: L - 3 + ch.Pick("templateFrom", 1, 1, 1), Len: L + 3 + ch.Pick("templateLen", 1, 1, 1)}}
+		return sc
+	}
 	sc.Fair = ch.Pick("fair", 3, 1) == 0
 	if !sc.Fair {
 		hs := sc.honest()
